@@ -27,6 +27,10 @@ CHECKS = {
             "Every output of every save in the workload is parsed by a reader that shares no code with the library and trusts only the header tables; declared sizes are compared with "
             "what the writer emitted between Block hook events and with what the reader consumes on reload; string-index fields are located through the StringRef hook. "
             "The workload writes files after plain round trips, second generation, API construction and random edit sequences in all versions.", "3/C07"),
+    "C15": ("fault_enumeration", "fault enumeration under ASan/UBSan/libstdc++ assertions: every reference-field stratum x corruption kind (hook-located offsets, bytes patched outside the library), fork-isolated with CPU-time hang detection",
+            "Reference fields are located by the BlockRef hook of the traced raw save and patched directly in the bytes; strata (block type, target class) x 8 corruption kinds plus "
+            "2-3-fold combinations are enumerated for real, synthesised (every block type) and API-built files; each fault runs load, query battery, copy, both saves and reload in a "
+            "child process; aborts, signals, exceptions and CPU-limit hangs are violations attributed to the fault and phase.", "3/C15"),
     "C16": ("fault_enumeration", "fault enumeration under ASan/UBSan/libstdc++ assertions: every/selected truncation offsets of real, synthesised and API-built files, fork-isolated with CPU-time hang detection",
             "The fault model (file ends after k bytes) is enumerated over all offsets of the small samples and over block/field/table boundaries plus a stride of the large ones; each "
             "prefix goes through Load, the query battery, copy, both saves, reload and destruction in a child process whose death (sanitizer abort, signal, assertion, CPU limit) is "
